@@ -62,7 +62,7 @@ type histCase struct {
 	// CRLFBefore > 0: before process number CRLFBefore-1 starts, every snapshot file is converted to CRLF line ends (the tree was
 	// checked out again with core.autocrlf): the files hold the same entries for every reader of the format
 	CRLFBefore int `json:"crlf_before_process_plus1,omitempty"`
-	BlockKind string   `json:"block_kind,omitempty"`  // "" : the directory path is occupied by a regular file | file_is_dir : the snapshot file path is a directory | name_too_long : file name beyond NAME_MAX
+	BlockKind string   `json:"block_kind,omitempty"`  // "" : the directory path is occupied by a regular file | file_is_dir : the snapshot file path is a directory | name_too_long : file name beyond NAME_MAX | read_only_dir : the directory exists but is not writable for the process
 }
 
 // vkey: identity of the stored text of a call (equal keys <=> the code must treat the values as equal).
@@ -194,7 +194,7 @@ func genHistory(t *rapid.T, col *collector, ho histOpts) histCase {
 	}
 	if ho.blocked && rapid.IntRange(0, 2).Draw(t, "blocked") == 0 {
 		c.Blocked = true
-		c.BlockKind = rapid.SampledFrom([]string{"", "file_is_dir", "name_too_long"}).Draw(t, "blockkind")
+		c.BlockKind = rapid.SampledFrom([]string{"", "file_is_dir", "name_too_long", "read_only_dir"}).Draw(t, "blockkind")
 	}
 	nprocs := rapid.IntRange(1, ho.maxProcs).Draw(t, "nprocs")
 	for p := 0; p < nprocs; p++ {
@@ -381,6 +381,11 @@ func runHistory(c histCase, hooks histHooks) error {
 		if c.BlockKind == "file_is_dir" {
 			blockedSpec = CfgSpec{Dir: "blockeddir", Filename: "h"}
 			os.MkdirAll(filepath.Join(root, blockedSpec.multiPath(), "inner"), 0o755)
+		} else if c.BlockKind == "read_only_dir" {
+			// the snapshot directory exists but the process may not write into it (the call runs with an unprivileged
+			// file-system uid): nothing can be created there
+			blockedSpec = CfgSpec{Dir: "readonlydir", Filename: "h"}
+			os.MkdirAll(filepath.Join(root, "readonlydir"), 0o755)
 		} else if c.BlockKind == "name_too_long" {
 			// a file name beyond NAME_MAX: the directory can be created, the file can neither be read nor written
 			blockedSpec = CfgSpec{Dir: "longnames", Filename: strings.Repeat("n", 300)}
@@ -462,7 +467,12 @@ func runHistory(c histCase, hooks histHooks) error {
 				// the blocked config (C20): directory cannot be created, the call must fail and touch nothing
 				spec := blockedSpec
 				spec.Update = ec.UpdOpt
+				undo := func() {}
+				if c.BlockKind == "read_only_dir" {
+					undo = makeReadOnly(filepath.Join(root, "readonlydir"))
+				}
 				r := ec.Call.invoke(spec.build(root), fts[st.Exec])
+				undo()
 				got, err := outcomeOf(r)
 				if err != nil {
 					return fmt.Errorf("process %d %s (blocked dir): %v", pi, name, err)
